@@ -608,7 +608,7 @@ class Polygon(Shape2D):
         )
 
         x, resids, _, _ = np.linalg.lstsq(a, b, None)
-        if len(self.vertices) > 4 and not np.isclose(resids, 0):
+        if len(self.vertices) > 3 and not np.isclose(resids, 0):
             raise RuntimeError("No incircle for this polygon.")
 
         return Circle(x[3], x[:3])
